@@ -98,6 +98,13 @@ impl Cx {
 
 pub static PROGRESS: AtomicU64 = AtomicU64::new(0);
 
+/// Set by the libFuzzer entry points: drain only small prefixes of large bodies (throughput).
+pub static LIGHT: std::sync::atomic::AtomicBool = std::sync::atomic::AtomicBool::new(false);
+
+pub fn light() -> bool {
+    LIGHT.load(Ordering::Relaxed)
+}
+
 const MAX_SAMPLES_PER_LABEL: usize = 2;
 const MAX_VIOLATIONS: usize = 8;
 
